@@ -703,6 +703,29 @@ class _Gen:
         else:
             self.emit(indent, prefix + e + suffix)
 
+    def one_liner(self, indent, header, body):
+        """`def f(): stmt` / `class C: stmt` on the header's line; half of the time the statement continues over
+        several physical lines (brackets or backslashes), so that the header's logical line ends after the line of
+        the last body statement; a sibling at the header's indentation follows"""
+        r = self.rng.random()
+        if body == "pass" or r < 0.45:
+            self.emit(indent, header + body)
+        elif r < 0.8:
+            # continuation through brackets, continuation lines at assorted indentations (also the header's own)
+            kw, _, e = body.partition(" = ") if " = " in body else ("return", "", body[len("return "):])
+            head = (kw + " = ") if " = " in body else "return "
+            opener, closer = self.rng.choice([("(", ")"), ("[", "]"), ("dict(a=", ")")])
+            self.emit(indent, header + head + opener)
+            for _ in range(self.rng.randint(1, 2)):
+                self.lines.append(" " * self.rng.choice([indent, indent + 4, indent + 8, 0]) + e + ",")
+            self.lines.append(" " * self.rng.choice([indent, indent + 4]) + closer)
+        else:
+            # backslash continuation
+            self.emit(indent, header + body + " + \\")
+            self.lines.append(" " * self.rng.choice([indent, indent + 4, indent + 8]) + self.simple(1))
+        if self.rng.random() < 0.7:
+            self.emit(indent, self.rng.choice(["%s = %s" % (self.name(), self.simple(1)), "pass", "%s.%s" % (self.name(), self.name())]))
+
     # ---- statements
     def block(self, indent, ctx, n=None, top=False):
         """ctx: kind ('module'|'function'|'class'), selfname, params, module_names, enclosing (names bound in
@@ -907,9 +930,9 @@ class _Gen:
             enclosing = ctx.get("enclosing", [])
         inner = dict(kind="function", selfname=selfname, params=pnames, module_names=ctx["module_names"],
                      enclosing=enclosing, bound_here=list(pnames), classes=list(ctx.get("classes", [])))
-        if self.rng.random() < 0.12:
+        if self.rng.random() < 0.16:
             body = self.rng.choice(["pass", "return %s" % self.simple(1), "%s = %s" % (self.name(), self.simple(1))])
-            self.emit(indent, "def %s(%s)%s: %s" % (name, ps, ret, body))
+            self.one_liner(indent, "def %s(%s)%s: " % (name, ps, ret), body)
             return
         self.emit(indent, "def %s(%s)%s:" % (name, ps, ret))
         body_indent = indent + self.rng.choice([4, 4, 4, 2, 8])
@@ -956,8 +979,9 @@ class _Gen:
         enclosing = ctx.get("enclosing", []) + (ctx.get("bound_here", []) if ctx["kind"] == "function" else [])
         inner = dict(kind="class", module_names=ctx["module_names"], enclosing=enclosing,
                      classes=list(ctx.get("classes", [])))
-        if self.rng.random() < 0.1:
-            self.emit(indent, "class %s%s: %s" % (name, bases, self.rng.choice(["pass", "%s = %s" % (self.name(), self.simple(1))])))
+        if self.rng.random() < 0.14:
+            self.one_liner(indent, "class %s%s: " % (name, bases),
+                           self.rng.choice(["pass", "%s = %s" % (self.name(), self.simple(1))]))
             return
         self.emit(indent, "class %s%s:" % (name, bases))
         self.block(indent + 4, inner, top=True)
